@@ -72,7 +72,8 @@ def make_cases(ctx):
                     cases.append({'op': name, 'kind': kind, 'm': m, 'no_prss': np_, 'seed': rng.randrange(1 << 30)})
     # one directed input per OPEN known finding, and the regression inputs of fixed defects
     for name in sorted(ops.DIRECTED):
-        cases.append({'op': name, 'kind': ops.DIRECTED[name]['kinds'][0], 'm': 3, 'no_prss': name.startswith('x_fixed'), 'seed': 1})
+        cases.append(dict({'op': name, 'kind': ops.DIRECTED[name]['kinds'][0], 'm': 3, 'no_prss': name.startswith('x_fixed'),
+                           'seed': 1}, **ops.DIRECTED[name]['plan'](None, None, None).get('case', {})))
     # every named variant of the multi-variant operations once (m = 3, alternating PRSS off/on)
     k = 0
     for name in sorted(ops.VARIANTS):
@@ -82,6 +83,21 @@ def make_cases(ctx):
                 cases.append({'op': name, 'kind': kind, 'm': 3, 'no_prss': k % 2 == 0, 'seed': rng.randrange(1 << 30), 'force': var})
                 if name == 'f256_arith':   # extension field with threshold 2: PRSS zero sharings of degree 4
                     cases.append({'op': name, 'kind': kind, 'm': 5, 'no_prss': False, 'seed': rng.randrange(1 << 30), 'force': var})
+    # option -W (worker threads, used by the array square roots behind np_random_bits / comparisons / sqrt)
+    for name in ('np_random_bits', 'np_sgn', 'np_less', 'np_multiply', 'np_is_zero_public', 'np_absolute', 'np_minimum'):
+        if name not in ops.OPS:
+            continue
+        for kind in ops.OPS[name]['kinds'][:3]:
+            for w_ in (2, 3):
+                cases.append({'op': name, 'kind': kind, 'm': 3 if w_ == 2 else 1, 'no_prss': False, 'seed': rng.randrange(1 << 30),
+                              'workers': w_})
+    # option --mix32-64bit (arrays travel as field-element byte strings instead of pickles)
+    for name in ('input_output', 'np_multiply', 'np_matmul', 'np_less', 'np_reciprocal', 'f256_arith'):
+        if name not in ops.OPS:
+            continue
+        for kind in ops.OPS[name]['kinds'][:4]:
+            cases.append({'op': name, 'kind': kind, 'm': 3, 'no_prss': len(cases) % 2 == 0, 'seed': rng.randrange(1 << 30),
+                          'mix32_64bit': True})
     # 2. random extra cases, weighted towards m = 3
     names = sorted(ops.OPS)
     for _ in range(ctx.scale(220, 6000)):
@@ -176,6 +192,9 @@ def search(ctx):
 
 def replay(ctx, data):
     case = {k: data[k] for k in ('op', 'kind', 'm', 'no_prss', 'seed')}
+    for k_ in ('workers', 'mix32_64bit'):
+        if k_ in data:
+            case[k_] = data[k_]
     if 'force' in data:
         case['force'] = data['force']
     res = _worker(case)
